@@ -166,6 +166,11 @@ def build_driver():
 def build_harness():
     """Build the Rust harness against /repo's CURRENT working tree (cargo decides what is stale)."""
     with Lock("cargo"):
+        tmpl = open(os.path.join(HARNESS, "Cargo.toml.in")).read().replace("@REPO@", REPO)
+        toml = os.path.join(HARNESS, "Cargo.toml")
+        if not os.path.exists(toml) or open(toml).read() != tmpl:
+            with open(toml, "w") as f:
+                f.write(tmpl)
         lock_src = os.path.join(REPO, "Cargo.lock")
         lock_dst = os.path.join(HARNESS, "Cargo.lock")
         base = os.path.join(HARNESS, "Cargo.lock.base")
